@@ -70,3 +70,8 @@ claimed["C11"] = dict(engine="engine-I", category="model_checking",
   text="every valid single-record CIGAR (<=3 operators) at every POS on a 9-base reference and every 2-record cut of every M/I/D master alignment (<=4 operators), under a rotating choice of 64 option sets (4 annotations x --append-snps x 4 windows x reference from file/annotation; all 64 on a subset); the sam variants row must equal the variants row on the toPairAlign pair, on [reference, toMultiAlign --pad row] and (where flanks cannot interfere) on [reference, plain toMultiAlign row]",
   note="trusted: nothing but the real code on both sides; domain restrictions for the plain-row relation listed in the evidence assumptions",
   design_ref="DESIGN.md 3 (C11)")
+claimed["C16"] = dict(engine="engine-I", category="model_checking",
+  technique="bounded-exhaustive enumeration of byte streams on the five real readers (channel readers driven under the controlled scheduler) vs. a reference parser",
+  text="every byte string of length <=5 (thorough 6; 7 for the synchronous reader) over {> A c N - x SP LF CR}; every line-breaking x case x line-ending x final-newline layout of 6 (12) small alignments with a blank line at every boundary; every truncation / single-byte deletion, replacement, insertion / dropped or doubled line of those alignments; each reader must return the reference parser's records on valid streams, reject invalid ones, and never panic or deadlock (exact outcomes, no time-outs)",
+  note="trusted: refParse in harness/c16.go (tokenisation = bufio.ScanLines); streams with blank lines / nameless headers / no sequence judged for totality only; 'all byte streams' is covered to the stated length over a 9-byte alphabet, not by fuzzing",
+  design_ref="DESIGN.md 3 (C16)")
